@@ -182,3 +182,16 @@ def real_constraints(ctx, I):
         if (total >= 4100) != lost or hwn > 4100 + 1000:
             ctx.fail("oracle/negotiation-cap", "negotiation buffer: fed %d bytes without a blank line: connection dropped=%s, high-water %d"
                      % (total, lost, hwn), replay=dict(total=total))
+
+
+def replay(ctx, data):
+    """./check C11 --replay F: policy-stream cases are replayed as in C07; real-constraint cases re-run the full oracle"""
+    rp = data.get("replay") or {}
+    if "stream" in rp:
+        return c07.replay(ctx, data)
+    print("note: this replay names a real-constraint case (%r); re-running the real-constraint oracle" % rp.get("constraint"))
+    from harness import c07_impl as I
+    ctx.rule = "replay: real-constraint oracle"
+    ctx.coq_build(["props/C11.vo"])
+    with I.E_quiet():
+        real_constraints(ctx, I)
